@@ -3,7 +3,7 @@ setup:
 	cd coq && coq_makefile -f _CoqProject -o Makefile.coq >/dev/null && $(MAKE) -f Makefile.coq -j16
 	$(MAKE) -C ocaml
 	$(MAKE) -s -k -C impl -j16 || true
-	-for p in c08 c13 c14 c15 c16 c17 c18 c19; do python3 -c "import sys; sys.path.insert(0,'/verif/harness'); import importlib; m=importlib.import_module('props.$$p'); m.build()" || true; done
+	-for p in c04 c08 c13 c14 c15 c16 c17 c18 c19; do python3 -c "import sys; sys.path.insert(0,'/verif/harness'); import importlib; m=importlib.import_module('props.$$p'); m.build()" || true; done
 clean:
 	rm -rf .build coq/*.vo coq/*.vok coq/*.vos coq/*.glob coq/Makefile.coq*
 .PHONY: setup clean
